@@ -525,14 +525,14 @@ impl Oracle for TransportOracle {
                     // (families in which the applications end nothing, the link loses nothing and
                     // every data frame is answered well inside the silence timeout: there the end of
                     // a connection excuses no lost packet)
-                    let must_last = live && cx.plan.param("connection_must_last", 0.0) != 0.0;
+                    let must_last = cx.plan.param("connection_must_last", 0.0) != 0.0;
                     for ((src, dst), dir) in self.dirs.iter() {
                         if dir.ended && must_last {
-                            if let Some((i, s)) = dir.subs.iter().enumerate().find(|(_, s)| s.mode == MODE_RELIABLE && !s.delivered) {
+                            if let Some((i, s)) = dir.subs.iter().enumerate().find(|(_, s)| (if ideal { s.mode != MODE_TIME_SENSITIVE } else { s.mode == MODE_RELIABLE }) && !s.delivered) {
                                 let d = format!(
                                     "{} -> {}: submission #{} ({}, call {}) was never delivered ({} of {} delivered): the connection ended although the link lost nothing, both applications kept stepping and neither side was silent for its timeout",
                                     src, dst, i, describe(&s.payload), s.call, dir.delivered, dir.subs.len());
-                                return viol(prop, "reliable_not_delivered", d, 0);
+                                return viol(prop, if ideal { "ideal_not_delivered" } else { "reliable_not_delivered" }, d, 0);
                             }
                         }
                         if dir.ended {
